@@ -1,5 +1,303 @@
 # -*- coding: utf-8 -*-
-TRUSTED = []
-RULE = ""
+"""C12 - checked enclosures: the library's float results against the real-number specification.
+
+For every sampled float run one Coq goal per real / imaginary part
+
+    Lemma g : Rabs (spec - v) <= tol.  Proof. c12_enclose. Qed.
+
+is generated into build/C12/encl_*.v (about 25 goals per file) and compiled by coqc in parallel;
+`spec` is a closed real expression over ModelR.spec_re / spec_im / spec_cascade / spec_parallel /
+spec_steady / spec_dft (tied to the complex specification by Prop.C12_enclosure_formulas), the
+frequency w, the coefficients and v are exact literals of the floats the library saw / returned,
+and the goal is closed by the Interval tactic at 80 bits.  A goal that does not check is a
+violation with the concrete filter and frequency."""
+import os, cmath, math, time, operator
+from fractions import Fraction
+from functools import reduce
+
+RULE = ("enclosure families (float runs): filters of order <= 6 with dyadic coefficients k/16, |c| <= 4, some zero "
+        "coefficients, denominators with |A(e^-jw)| >= 2^-10 at the probed frequency; frequencies k*pi/m "
+        "(m in 1,2,3,4,6,8,12,16, incl. 0 and pi) and dyadic rationals in [0, 2 pi); cascades / parallel banks of "
+        "1-3 sections of order <= 2 (also compared bit for bit with the product / sum of the library's own "
+        "section responses); dft(impulse response, [w], normalize=False) of FIR filters; normalised dft of "
+        "random real blocks; output sample n >= order of a FIR filter fed with exp(1j*w*n)")
+TRUSTED = [
+  "enclosure tolerances are ASSUMED rounding bounds, not proved: freq_response 2^-44*(sum|b_k| + |H| sum|a_k|)/|A(e^-jw)| "
+  "(cascade: relative sum over the sections, parallel: absolute sum), dft 2^-44*sum|x_k|, FIR steady state "
+  "2^-43*sum|b_k|/|a_0|; a float result within that distance of the real specification counts as equal to it",
+  "Interval tactic (Coq library, reflexive interval arithmetic at 80 bits) decides the enclosure goals; its proofs "
+  "are kernel-checked at Qed",
+  "floats (frequency, coefficients, results) are transferred as exact rationals; cmath.exp / complex arithmetic of "
+  "CPython are only observed through these results",
+]
+GOALS_PER_FILE = 25
+TOL = Fraction(1, 1 << 44)
+
+
+# ------------------------------------------------------------------ literals
+def rlit(x):
+  """exact real literal of a float / Fraction"""
+  f = Fraction(x)
+  if f.denominator == 1:
+    return "%d" % f.numerator if f >= 0 else "(%d)" % f.numerator
+  return "(%d / %d)" % (f.numerator, f.denominator)
+
+
+def rlist(xs):
+  return "[" + "; ".join(rlit(x) for x in xs) + "]"
+
+
+def up(fr_):
+  """a dyadic upper bound of a positive Fraction (keeps literals short)"""
+  e = 80
+  return Fraction(-((-fr_.numerator << e) // fr_.denominator), 1 << e)
+
+
+# ------------------------------------------------------------------ generators
+def coeff(rng, p_zero=0.2):
+  if rng.random() < p_zero:
+    return 0.0
+  return rng.randrange(-64, 65) / 16.0
+
+
+def coeffs(rng, n, lead_nonzero=False):
+  l = [coeff(rng) for _ in range(n)]
+  if lead_nonzero and l[0] == 0.0:
+    l[0] = 1.0
+  return l
+
+
+def freq(rng):
+  x = rng.random()
+  if x < 0.1:
+    return 0.0
+  if x < 0.2:
+    return math.pi
+  if x < 0.6:
+    m = rng.choice([1, 2, 3, 4, 6, 8, 12, 16])
+    return rng.randrange(0, 2 * m) * math.pi / m
+  return rng.randrange(0, 6434) / 1024.0        # < 2 pi
+
+
+def section(rng, maxord):
+  b = coeffs(rng, rng.randrange(1, maxord + 2))
+  if rng.random() < 0.25:
+    a = [rng.choice([1.0, 1.0, -1.0, 2.0, 0.5])]
+  else:
+    a = [rng.choice([1.0, 1.0, 1.0, 2.0, -1.0, 0.5])] + coeffs(rng, rng.randrange(1, maxord + 1))
+  if not any(b):
+    b[0] = 1.0
+  return b, a
+
+
+def poly_at(l, w):
+  return sum(c * cmath.exp(-1j * w * k) for k, c in enumerate(l))
+
+
+def fr_tol(b, a, w):
+  A = poly_at(a, w)
+  if abs(A) < 2.0 ** -10:
+    return None
+  H = poly_at(b, w) / A
+  K = (sum(abs(c) for c in b) + abs(H) * sum(abs(c) for c in a)) / abs(A)
+  return Fraction(K) * Fraction(1 + 2.0 ** -20), H
+
+
+def gen(tier, rng):
+  mult = 1 if tier == "quick" else 10
+  cases = []
+  for _ in range(60 * mult):
+    b, a = section(rng, 6)
+    if rng.random() < 0.12:           # leading zeros: the constructor shifts both polynomials (Laurent numerator)
+      a = [0.0] * rng.randrange(1, 3) + a[:5]
+    cases.append({"fam": "single", "secs": [[b, a]], "w": freq(rng)})
+  for fam in ("cascade", "parallel"):
+    for _ in range(12 * mult):
+      secs = [list(section(rng, 2)) for _ in range(rng.choice([1, 2, 2, 2, 3]))]
+      cases.append({"fam": fam, "secs": secs, "w": freq(rng)})
+  for _ in range(20 * mult):
+    b = coeffs(rng, rng.randrange(1, 8))
+    a0 = rng.choice([1.0, 1.0, -1.0, 2.0, 0.5, -4.0])
+    cases.append({"fam": "impulse-dft", "secs": [[b, [a0]]], "w": freq(rng), "len": len(b) + rng.randrange(0, 4)})
+  for _ in range(10 * mult):
+    x = coeffs(rng, rng.randrange(1, 9))
+    cases.append({"fam": "dft-normalised", "blk": x, "w": freq(rng)})
+  for _ in range(20 * mult):
+    b = coeffs(rng, rng.randrange(1, 8))
+    a0 = rng.choice([1.0, 1.0, -1.0, 2.0, 0.5])
+    order = max([k for k, c in enumerate(b) if c] + [0])
+    n = order + rng.randrange(0, 6)
+    cases.append({"fam": "steady", "secs": [[b, [a0]]], "w": freq(rng), "n": n})
+  return cases
+
+
+# ------------------------------------------------------------------ implementation runs
+def secs_lit(secs):
+  return "[" + "; ".join("(%s, %s)" % (rlist(b), rlist(a)) for b, a in secs) + "]"
+
+
+def observe(c):
+  """runs the library; returns (value, spec expression of type C, tolerance) or a skip / exact verdict"""
+  from audiolazy import ZFilter, CascadeFilter, ParallelFilter, dft
+  w = c["w"]
+  fam = c["fam"]
+  if fam in ("single", "cascade", "parallel"):
+    tols = [fr_tol(b, a, w) for b, a in c["secs"]]
+    if any(t is None for t in tols):
+      return {"skip": "denominator too close to zero"}
+    fs = [ZFilter(list(b), list(a)) for b, a in c["secs"]]
+    if fam == "single":
+      v = fs[0].freq_response(w)
+      b, a = c["secs"][0]
+      return {"v": v, "spec": "(spec_c (%s, %s) %s)" % (rlist(b), rlist(a), rlit(w)), "tol": TOL * tols[0][0]}
+    filt = (CascadeFilter if fam == "cascade" else ParallelFilter)(*fs)
+    v = filt.freq_response(w)
+    own = [f.freq_response(w) for f in fs]
+    same = reduce(operator.mul if fam == "cascade" else operator.add, own)
+    exact_ok = (v == same) or (v != v and same != same)
+    hs = [abs(t[1]) for t in tols]
+    if fam == "cascade":
+      if min(hs) == 0.0:
+        return {"skip": "zero section response"}
+      prod = reduce(operator.mul, hs)
+      tol = Fraction(prod) * sum(TOL * t[0] / Fraction(h) for t, h in zip(tols, hs)) * Fraction(9, 8) \
+            + TOL * Fraction(prod) / 16
+    else:
+      tol = sum(TOL * t[0] for t in tols) + TOL * Fraction(sum(hs)) / 16
+    return {"v": v, "spec": "(spec_%s %s %s)" % (fam, secs_lit(c["secs"]), rlit(w)), "tol": tol,
+            "exact_ok": exact_ok, "own": [repr(x) for x in own]}
+  if fam == "impulse-dft":
+    b, a = c["secs"][0]
+    filt = ZFilter(list(b), list(a))
+    ir = list(filt([1.0] + [0.0] * (c["len"] - 1)))
+    v = dft(ir, [w], normalize=False)[0]
+    return {"v": v, "spec": "(spec_c (%s, %s) %s)" % (rlist(b), rlist(a), rlit(w)),
+            "tol": TOL * Fraction(sum(abs(x) for x in b)) / Fraction(abs(a[0])) + TOL / 1024, "ir": [repr(x) for x in ir]}
+  if fam == "dft-normalised":
+    x = c["blk"]
+    v = dft(list(x), [w], normalize=True)[0]
+    return {"v": v, "spec": "(Cdiv (spec_dft %s %s) (RtoC %d))" % (rlist(x), rlit(w), len(x)),
+            "tol": TOL * Fraction(sum(abs(t) for t in x)) + TOL / 1024}
+  if fam == "steady":
+    b, a = c["secs"][0]
+    filt = ZFilter(list(b), list(a))
+    xs = [cmath.exp(1j * w * k) for k in range(c["n"] + 1)]
+    v = list(filt(xs))[c["n"]]
+    return {"v": v, "spec": "(spec_steady %s %s %s %d)" % (rlist(b), rlist(a), rlit(w), c["n"]),
+            "tol": 2 * TOL * Fraction(sum(abs(x) for x in b)) / Fraction(abs(a[0])) + TOL / 1024}
+  raise ValueError(fam)
+
+
+def goals_of(idx, c, o):
+  """two lemmas (real and imaginary part) for one observation"""
+  v = complex(o["v"])
+  tol = rlit(up(o["tol"]))
+  spec = o["spec"]
+  if spec.startswith("(Cdiv"):
+    # real division of both parts: (re / N, im / N)
+    inner, n = spec[len("(Cdiv "):-1].rsplit(" (RtoC ", 1)
+    n = n.rstrip(")")
+    parts = [("re", "fst %s / %s" % (inner, n), v.real), ("im", "snd %s / %s" % (inner, n), v.imag)]
+  else:
+    parts = [("re", "fst %s" % spec, v.real), ("im", "snd %s" % spec, v.imag)]
+  out = []
+  for nm, e, val in parts:
+    out.append(("g%d_%s" % (idx, nm),
+                "Lemma g%d_%s : Rabs (%s - %s) <= %s.\nProof. c12_enclose. Qed.\n" % (idx, nm, e, rlit(val), tol)))
+  return out
+
+
+HEADER = "From AL Require Import C12.Encl.\nOpen Scope R_scope.\n"
+
+
 def run(chk, tier, rng):
-  pass
+  t0 = time.time()
+  cases = gen(tier, rng)
+  fs = chk.stats["families"].setdefault("encl", {"cases": 0, "goals": 0, "skipped": 0, "corr_bad": 0,
+                                                 "holds_bad": 0, "exact_bad": 0})
+  goals = []          # (name, text, case index)
+  obs = {}
+  for i, c in enumerate(cases):
+    try:
+      o = observe(c)
+    except Exception as e:
+      chk.violations.append({"family": "encl", "case": c, "observed": {"raise": type(e).__name__, "msg": str(e)[:200]},
+                             "model_agrees": False})
+      fs["holds_bad"] += 1
+      continue
+    if "skip" in o:
+      fs["skipped"] += 1
+      continue
+    v = o["v"]
+    if not isinstance(v, (complex, float)) or v != v or abs(v) == float("inf"):
+      chk.violations.append({"family": "encl", "case": c, "observed": {"value": repr(v), "expected": "a finite number"},
+                             "model_agrees": False})
+      fs["holds_bad"] += 1
+      continue
+    if o.get("exact_ok") is False:
+      chk.violations.append({"family": "encl", "case": c,
+                             "observed": {"value": repr(v), "section_responses": o["own"],
+                                          "expected": "bit-equal product / sum of the section responses"},
+                             "model_agrees": False})
+      fs["exact_bad"] += 1
+      fs["holds_bad"] += 1
+      continue
+    obs[i] = o
+    fs["cases"] += 1
+    chk.stats["tags"]["encl:" + c["fam"]] += 1
+    chk.stats["nontrivial_hashes"].add("encl-%d-%s" % (i, c["fam"]))
+    for name, text in goals_of(i, c, o):
+      goals.append((name, text, i))
+  fs["goals"] = len(goals)
+  chk.stats["evaluations"] += fs["cases"]
+  os.makedirs(chk.bdir, exist_ok=True)
+  for p in [p for p in os.listdir(chk.bdir) if p.startswith("encl_")]:
+    os.remove(os.path.join(chk.bdir, p))
+  files = []
+  # goals are dealt round-robin so that the expensive ones (cascades) spread over all files
+  nfiles = max(16, -(-len(goals) // GOALS_PER_FILE)) if goals else 0
+  for k in range(nfiles):
+    part = goals[k::nfiles]
+    if not part:
+      continue
+    path = os.path.join(chk.bdir, "encl_%d.v" % k)
+    with open(path, "w") as f:
+      f.write(HEADER + "\n".join(t for _, t, _ in part))
+    files.append((path, part))
+  results = chk._coqc_many([p for p, _ in files])
+  chk.cmds.append("coqc build/C12/encl_*.v   (%d files, %d enclosure goals closed by `interval with (i_prec 80)`)"
+                  % (len(files), len(goals)))
+  # a file that does not compile: locate every failing goal by compiling its goals one by one
+  singles = []
+  for (path, gl), (rc, out) in zip(files, results):
+    if rc == 0:
+      continue
+    for name, text, i in gl:
+      p1 = os.path.join(chk.bdir, "encl_one_%s.v" % name)
+      with open(p1, "w") as f:
+        f.write(HEADER + text)
+      singles.append((p1, name, i))
+  if singles:
+    res1 = chk._coqc_many([p for p, _, _ in singles])
+    bad_cases = {}
+    for (p1, name, i), (rc, out) in zip(singles, res1):
+      if rc == 0:
+        continue
+      if rc == 124 or "Numerical evaluation failed" not in out:
+        chk.broken.append(("tie", "enclosure goal %s" % name, out[-600:]))
+        fs["corr_bad"] += 1
+        continue
+      bad_cases.setdefault(i, []).append(name)
+    for i, names in sorted(bad_cases.items()):
+      o = obs[i]
+      fs["holds_bad"] += 1
+      chk.violations.append({"family": "encl", "case": cases[i],
+                             "observed": {"value": repr(o["v"]), "spec": o["spec"], "tolerance": float(o["tol"]),
+                                          "failing_goals": names},
+                             "model_agrees": False})
+  if len(chk.stats["samples"]) < 8 and obs:
+    i = sorted(obs)[0]
+    chk.stats["samples"].append({"family": "encl", "case": cases[i],
+                                 "observed": {"value": repr(obs[i]["v"]), "spec": obs[i]["spec"],
+                                              "tolerance": float(obs[i]["tol"])}})
+  fs["wall_s"] = round(time.time() - t0, 1)
